@@ -3,6 +3,7 @@
  * built-in model is missing or unusable.  Only compiled in the CBMC build.
  *
  *  - strerror: returns a valid NUL-terminated string.
+ *  - snprintf: writes a NUL-terminated string within the given size.
  *  - memcpy / memmove / memset: CBMC 6.11's built-in models give WRONG
  *    answers for a symbolic length (probe: memcpy(d, v, n*8) with n == 2 does
  *    not establish d[1] == v[1]), which shows up as spurious postcondition
@@ -19,6 +20,18 @@ char *strerror(int e)
 {
     (void)e;
     return verif_strerror_buf;
+}
+
+/* ASSUMED CONTRACT: snprintf writes a NUL-terminated string of at most size bytes */
+int snprintf(char *str, size_t size, const char *format, ...)
+{
+    (void)format;
+    if (size != 0) {
+	__CPROVER_assert(__CPROVER_w_ok(str, size), "snprintf: destination writable for size bytes");
+	str[0] = 'm';
+	str[size > 1 ? 1 : 0] = 0;
+    }
+    return 1;
 }
 
 void *memcpy(void *dst, const void *src, size_t n)
